@@ -585,4 +585,144 @@ theorem any_eq_decide_mem (rows : List WRow) (x : Nat) :
   rw [Bool.eq_iff_iff]
   simp only [List.any_eq_true, decide_eq_true_eq, List.mem_map]
 
+/-! ## Sums over root kinds -/
+
+theorem sum_map_zero {α} (l : List α) (f : α → Nat) (h : ∀ a ∈ l, f a = 0) : (l.map f).sum = 0 := by
+  induction l with
+  | nil => simp
+  | cons a as ih =>
+    simp only [List.map_cons, List.sum_cons, h a (List.mem_cons_self ..), Nat.zero_add]
+    exact ih (fun b hb => h b (List.mem_cons_of_mem _ hb))
+
+theorem sum_indicator (ks : List Nat) (x : Nat) (hnd : ks.Nodup) (hx : x ∈ ks) :
+    (ks.map fun k => if x = k then 1 else 0).sum = 1 := by
+  induction ks with
+  | nil => cases hx
+  | cons k ks ih =>
+    have hnd' := List.nodup_cons.mp hnd
+    simp only [List.map_cons, List.sum_cons]
+    by_cases hk : x = k
+    · subst hk
+      have : (ks.map fun k => if x = k then 1 else 0).sum = 0 := by
+        apply sum_map_zero
+        intro k' hk'
+        have : x ≠ k' := fun h => hnd'.1 (h ▸ hk')
+        simp [this]
+      simp [this]
+    · have hx' : x ∈ ks := by
+        rcases List.mem_cons.mp hx with h | h
+        · exact absurd h hk
+        · exact h
+      simp [hk, ih hnd'.2 hx']
+
+theorem climb_root_row (B : List Blk) : ∀ (n i k r : Nat), climb B n i = some (k, r) →
+    ∃ b ∈ B, b.kind = k ∧ b.src = r ∧ b.kind ≠ blockStep := by
+  intro n
+  induction n with
+  | zero =>
+    intro i k r h
+    simp only [climb] at h
+    cases hp : parent? B i with
+    | none => simp [hp] at h
+    | some b =>
+      simp only [hp] at h
+      by_cases hk : b.kind = blockStep
+      · simp [hk] at h
+      · simp only [ne_eq, hk, not_false_eq_true, if_true, Option.some.injEq, Prod.mk.injEq] at h
+        exact ⟨b, (mem_of_parent hp).1, h.1, h.2, hk⟩
+  | succ n ih =>
+    intro i k r h
+    simp only [climb] at h
+    cases hp : parent? B i with
+    | none => simp [hp] at h
+    | some b =>
+      simp only [hp] at h
+      by_cases hk : b.kind = blockStep
+      · simp only [hk, if_true] at h
+        exact ih _ _ _ h
+      · simp [hk] at h
+
+/-! ## Well-formed base relations and the table computed from them -/
+
+/-- The candidates point into the universe (what the joins with `pend_step` guarantee). -/
+def WF (b : Base) : Prop :=
+  b.ids.Nodup ∧ (∀ fb ∈ b.fileBlock, fb.2 ∈ b.ids) ∧ (∀ r ∈ b.resBlock, r.step ∈ b.ids) ∧
+    (∀ u ∈ b.unsafeAnc, u.dst ∈ b.ids)
+
+theorem stepBlock_dst (b : Base) (hw : WF b) : ∀ e ∈ stepBlock b, e.2 ∈ b.ids := by
+  intro e he
+  unfold stepBlock at he
+  have := (mem_dedup _ _).mp he
+  rcases List.mem_append.mp this with h | h
+  · obtain ⟨fb, hfb, hin⟩ := List.mem_flatMap.mp h
+    obtain ⟨p, _, rfl⟩ := List.mem_map.mp hin
+    exact hw.2.1 fb hfb
+  · obtain ⟨u, hu, rfl⟩ := List.mem_map.mp h
+    exact hw.2.2.2 u (List.mem_filter.mp hu).1
+
+theorem cands_dst (b : Base) (hw : WF b) : ∀ c ∈ cands b, c.dst ∈ b.ids := by
+  intro c hc
+  unfold cands at hc
+  simp only [List.mem_append, List.mem_flatMap, List.mem_map, List.mem_filter] at hc
+  rcases hc with (((((⟨fb, hfb, df, _, rfl⟩ | ⟨r, hr, rfl⟩) | ⟨fb, hfb, p, _, rfl⟩) | ⟨u, ⟨hu, _⟩, rfl⟩) |
+    ⟨s, ⟨hs, _⟩, rfl⟩) | ⟨u, ⟨hu, _⟩, rfl⟩) | ⟨e, he, rfl⟩
+  · exact hw.2.1 fb hfb
+  · exact hw.2.2.1 r hr
+  · exact hw.2.1 fb hfb
+  · exact hw.2.2.2 u hu
+  · exact List.mem_map_of_mem hs
+  · exact hw.2.2.2 u hu
+  · exact stepBlock_dst b hw e he
+
+/-- `pend_blocker` as computed from the base relations. -/
+def blockerOf (b : Base) : List Blk := pendBlocker b.ids (cands b)
+
+/-- The root kinds in priority order (regenerated values). -/
+def rootKinds : List Nat := [rootFile, rootResource, rootFailed, rootDeferred, rootOther, rootRunnable]
+
+theorem cands_kind (b : Base) : ∀ c ∈ cands b, c.kind ∈ rootKinds ∨ c.kind = blockStep := by
+  intro c hc
+  unfold cands at hc
+  simp only [List.mem_append, List.mem_flatMap, List.mem_map, List.mem_filter] at hc
+  rcases hc with (((((⟨_, _, _, _, rfl⟩ | ⟨_, _, rfl⟩) | ⟨_, _, _, _, rfl⟩) | ⟨_, _, rfl⟩) |
+    ⟨_, _, rfl⟩) | ⟨_, _, rfl⟩) | ⟨_, _, rfl⟩ <;> simp [rootKinds]
+
+theorem blockerOf_kind (b : Base) : ∀ x ∈ blockerOf b, x.kind ∈ rootKinds ∨ x.kind = blockStep := by
+  intro x hx
+  unfold blockerOf pendBlocker at hx
+  rcases List.mem_append.mp hx with hp | hr
+  · obtain ⟨c, hc, _, hk, _⟩ := mem_primary hp
+    rw [← hk]; exact cands_kind b c hc
+  · unfold runnable at hr
+    obtain ⟨i, _, rfl⟩ := List.mem_map.mp hr
+    left; simp [rootKinds]
+
+/-! ## Sums under sorting and filtering -/
+
+theorem sum_insertBy {α} (lt : α → α → Bool) (f : α → Nat) (x : α) (l : List α) :
+    ((insertBy lt x l).map f).sum = f x + (l.map f).sum := by
+  induction l with
+  | nil => simp [insertBy]
+  | cons y ys ih =>
+    simp only [insertBy]
+    split
+    · simp only [List.map_cons, List.sum_cons, ih]; omega
+    · simp
+
+theorem sum_sortBy {α} (lt : α → α → Bool) (f : α → Nat) (l : List α) :
+    ((sortBy lt l).map f).sum = (l.map f).sum := by
+  induction l with
+  | nil => simp [sortBy]
+  | cons x xs ih =>
+    have : sortBy lt (x :: xs) = insertBy lt x (sortBy lt xs) := rfl
+    rw [this, sum_insertBy, ih]
+    simp
+
+theorem sum_filter_le {α} (p : α → Bool) (f : α → Nat) (l : List α) :
+    ((l.filter p).map f).sum ≤ (l.map f).sum := by
+  induction l with
+  | nil => simp
+  | cons x xs ih =>
+    by_cases h : p x <;> simp [h] <;> omega
+
 end StepupModel.P.Pending
